@@ -252,7 +252,7 @@ Definition ref_foc (t : table) (now : Z) (wh cs : list cond) (attrs assigns : li
       | [] => mk_result r 0 false 0 t
       | _ =>
           let f := fun x => with_uat now (set_pairs (assign_map assigns) x) in
-          let hit := fun x => conds_hold wh x && (r_id x =? r_id r) && live x in
+          let hit := fun x => conds_hold wh x && (r_id x =? r_id r) && visible wh x in
           mk_result (f r) (count_where hit t) false 1 (upd_where hit f t)
       end
   end.
@@ -343,7 +343,7 @@ Qed.
 
 (* ---- found rows -------------------------------------------------------------------------------- *)
 Lemma first_match_some t cs r : first_match t cs = Some r ->
-  In r t /\ live r = true /\ conds_hold cs r = true.
+  In r t /\ visible cs r = true /\ conds_hold cs r = true.
 Proof.
   unfold first_match. intros H. apply find_some in H. destruct H as [H1 H2].
   apply andb_prop in H2. tauto.
@@ -378,8 +378,11 @@ Proof.
     destruct (p x) eqn:E; [apply Hp in E; lia|]. apply (IH _ W2 I).
 Qed.
 
+Lemma unscoped_app a b : unscoped (a ++ b) = unscoped a || unscoped b.
+Proof. unfold unscoped. apply existsb_app. Qed.
+
 Lemma foc_found_assign t now wh ic attrs assigns r :
-  wf t -> first_match t (wh ++ ic) = Some r -> assigns <> [] ->
+  wf t -> unscoped ic = false -> first_match t (wh ++ ic) = Some r -> assigns <> [] ->
   names_key (assign_map assigns) = false ->
   let res := ref_foc t now wh (wh ++ ic) attrs assigns in
   let r' := with_uat now (set_pairs (assign_map assigns) r) in
@@ -387,12 +390,13 @@ Lemma foc_found_assign t now wh ic attrs assigns r :
   /\ lookup (res_tbl res) (r_id r) = Some r'
   /\ without (r_id r) (res_tbl res) = without (r_id r) t /\ wf (res_tbl res).
 Proof.
-  intros Hwf Hm Hne Hk. cbn. unfold ref_foc. rewrite Hm.
+  intros Hwf Hu Hm Hne Hk. cbn. unfold ref_foc. rewrite Hm.
   destruct assigns as [|a l]; [congruence|].
   destruct (first_match_some _ _ _ Hm) as (Hin & Hlive & Hc).
   rewrite conds_hold_app in Hc. apply andb_prop in Hc. destruct Hc as [Hc _].
+  unfold visible in Hlive. rewrite unscoped_app, Hu, orb_false_r in Hlive. fold (visible wh r) in Hlive.
   set (f := fun x => with_uat now (set_pairs (assign_map (a :: l)) x)).
-  set (hit := fun x => conds_hold wh x && (r_id x =? r_id r) && live x).
+  set (hit := fun x => conds_hold wh x && (r_id x =? r_id r) && visible wh x).
   assert (Hf : forall x, r_id (f x) = r_id x).
   { intros x. unfold f. rewrite with_uat_id. now apply set_pairs_id. }
   assert (Hhit : hit r = true) by (unfold hit; now rewrite Hc, Z.eqb_refl, Hlive).
